@@ -83,6 +83,11 @@ struct Excl {
 
 const SORT_FIELDS: [&str; 7] = ["x", "f", "s", "t", "o", "u", "timestamp"];
 
+/// experiment switch: keep ORDER BY + LIMIT and judge it only in a sub-region (see run_case)
+fn sub_region() -> bool {
+    std::env::var("VCHECK_C10_SUB").is_ok()
+}
+
 fn case_strategy(tier: Tier, ex: Excl, wx: crate::props::c02::WhereExcl) -> BoxedStrategy<Case> {
     let td = order_typedef();
     (cfg_strategy(3), 2usize..=4)
@@ -98,7 +103,7 @@ fn case_strategy(tier: Tier, ex: Excl, wx: crate::props::c02::WhereExcl) -> Boxe
             let order = if fields.is_empty() { Just(None).boxed() } else { opt_w(0.8, (prop::sample::select(fields), any::<bool>()).prop_map(|(f, d)| (f.to_string(), d))) };
             let q = (order, opt_w(0.7, prop_oneof![Just(0u32), Just(1), 2u32..6, 6u32..40, Just(1000)]), opt_w(if ex.offset { 0.0 } else { 0.4 }, prop_oneof![Just(0u32), Just(1), 2u32..6, 6u32..40]), opt_w(0.3, wh), opt_w(0.25, 0..n_ctx), any::<bool>())
                 .prop_map(move |(order, limit, offset, wh, ctx, ret)| {
-                    let limit = if ex.limit_with_order && order.is_some() { None } else { limit };
+                    let limit = if ex.limit_with_order && order.is_some() && !sub_region() { None } else { limit };
                     let ret = if ex.where_not_returned && order.is_some() && wh.is_some() { false } else { ret };
                     OQ { order, limit, offset, wh, ctx, ret }
                 });
@@ -173,6 +178,16 @@ fn run_case(c: &Case, rep: &mut CaseReport) -> Verdict {
             if ex.mixed_tiers && mixed && q.order.is_some() {
                 rep.excluded_known += 1;
                 continue;
+            }
+            if ex.limit_with_order && q.order.is_some() && q.limit.is_some() {
+                // experiment: ORDER BY + LIMIT is judged only without WHERE / FOR, on L0 segments and memory, before any restart
+                let fields_ok = std::env::var("VCHECK_C10_SUB").map(|v| v.split(',').any(|f| f == q.order.as_ref().unwrap().0 || f == "all")).unwrap_or(false);
+                let simple = q.wh.is_none() && q.ctx.is_none() && !layout.iter().any(|l| l == "layout:l1" || l == "layout:l2" || l == "layout:l3" || l == "layout:restarted") && fields_ok;
+                if !simple {
+                    rep.excluded_known += 1;
+                    continue;
+                }
+                rep.label("order-by-with-limit:judged");
             }
             let text = q.print(&c.td);
             let r = match w.db.cmd(&text) {
